@@ -263,9 +263,10 @@ pub fn run(input: &Value) -> Case {
                 } else {
                     o["pl"]["raw"].as_u64()
                 };
-                if pl == Some(1) && !built.is_empty() {
-                    // id 1 is what both (0,0) and (65535,65535) map to; the response is read as (0,0)
-                    named.push((cids[k], (0, 0)));
+                if pl == Some(4294967295) && !built.is_empty() {
+                    // the largest id is what both (65534,65535) and (65535,65535) map to; the response is
+                    // read as (65534,65535)
+                    named.push((cids[k], (65534, 65535)));
                 }
                 let err = o["err"].as_bool().unwrap_or(false);
                 if err {
@@ -347,10 +348,12 @@ pub fn run(input: &Value) -> Case {
         impl_out.iter().map(|(b, r)| json!({"bytes": String::from_utf8_lossy(b), "ret": r})).collect(),
     );
     // Known finding "pid-corner": there are 2^32 positions with coordinates below 65536 but only
-    // 2^32 - 1 valid placement ids, so one pair of positions has to share an id; with the present
-    // numbering it is (0,0) and (65535,65535).  Histories naming both for one content are in the class
-    // (an error response carrying the id of (65535,65535) is mapped back to (0,0) and so names both).
-    let corner = named.iter().any(|(c, p)| *p == (0, 0) && named.iter().any(|(c2, q)| c2 == c && *q == (65535, 65535)));
+    // 2^32 - 1 valid placement ids, so one pair of positions has to share an id (Coq: C11_pid_pigeonhole);
+    // with the present numbering it is (65534,65535) and (65535,65535).  Histories naming both for one
+    // content are in the class (an error response carrying the largest id is mapped back to (65534,65535)).
+    let corner = named
+        .iter()
+        .any(|(c, p)| *p == (65534, 65535) && named.iter().any(|(c2, q)| c2 == c && *q == (65535, 65535)));
     if corner {
         j["known_class"] = json!(["pid-corner"]);
         tags.push("known:pid-corner".into());
